@@ -35,6 +35,8 @@ EXTRA = [
     'select database()', 'select current_date, current_user from t', 'select a from t where b in (select c from u)',
     'select a from t where b in c', 'select max(a, b, c) from t', 'select - a, not b, -(-1) from t', 'select a as `x y` from t',
     'select * from int1 (select 1) as n', 'select last from t where a > last',
+    # functions with a FROM argument (other than EXTRACT)
+    'select substring(a from 2), trim(b from c), position(x from y) from t', 'select f(a from b) as v from t where g(c from 1) = 2',
     # placeholders in every position, with and without alias
     'select ? as x from t', 'select ? as x', 'select a from t where b = ? and c in (?, ?) limit 2', 'select coalesce(?, 1) as c, ? from t',
     'update t set a = ? where b = ?', 'delete from t where a = ?', 'select * from t where a between ? and ?',
